@@ -16,7 +16,7 @@ from lib import vf
 INVARIANTS = ("ForwardOnlyRouted AnsweredLocally EveryAnswerHasAKind PathStaysAbsolute EscapesSurvive "
               "OnlyStripAndPrepend QueryMergedInFront HostOnlyOnRequest PeerIsTold TLSHeaderTruthful "
               "RequestedHostIsTold RequestedPortIsTold STSOnlyOnTLS RedirectStatusIs3xx NeverRedirectsToItself "
-              "RedirectCarriesQuery FaultNotHidden HistoryIndependent")
+              "RedirectCarriesQuery FaultNotHidden HistoryIndependent ConnectionIndependent NoRoutePageWasConfigured")
 
 CFG = """SPECIFICATION Spec
 CONSTANTS
@@ -33,13 +33,13 @@ INVARIANTS %(inv)s
 CHECK_DEADLOCK FALSE
 """
 
-ACTIONS = ["ChooseOuter", "ChooseCase", "Lookup", "NextHost", "NoRoute", "Deny", "Redirect",
+ACTIONS = ["ChooseOuter", "ChooseCase", "RegistryPage", "Arrive", "PageUpdate", "Lookup", "NextHost", "NoRoute", "Deny", "Redirect",
            "BuildTarget", "AddHeaders", "Forward", "Respond"]
 # actions a property's universe cannot reach by construction (Deny is exercised by the model-only run)
 UNREACHED = {
     "C07": {"Deny", "Redirect"},
-    "C08": {"Deny", "Redirect", "NoRoute", "NextHost"},
-    "C13": {"Deny"},
+    "C08": {"Deny", "Redirect", "NoRoute", "NextHost", "RegistryPage", "PageUpdate"},
+    "C13": {"Deny", "RegistryPage", "PageUpdate"},
 }
 HARNESS = {"C07": "c07", "C08": "c08", "C13": "c13"}
 
@@ -49,13 +49,38 @@ def cfg(prop, mod, seed, gen=True, deny=False):
                       prop=prop, mod=mod, seed=seed, inv=INVARIANTS + (" Gen" if gen else ""))
 
 
-def run_harness(ctx, prop, cases, what, timeout=1500, env=None):
-    e = {"VERIF_IN": cases}
-    if env:
-        e.update(env)
-    name = HARNESS[prop]
-    r = ctx.gotest("proxy", ["proxy/common_verif_test.go", "proxy/%s_test.go" % name],
-                   "^TestVerif%s$" % prop, env=e, timeout=timeout)
+FILES = {"C07": ["proxy/common_verif_test.go", "proxy/common_wire_test.go", "proxy/c07_test.go"],
+         "C08": ["proxy/common_verif_test.go", "proxy/common_wire_test.go", "proxy/c08_test.go"],
+         "C13": ["proxy/common_verif_test.go", "proxy/common_wire_test.go", "proxy/c13_test.go"]}
+
+
+def crashed(ctx, prop, r, what):
+    """A crash of the code under test (Go runtime 'fatal error', panic that takes the process down) is a verdict."""
+    if r.summary is None and not r.build_failed and not r.timed_out and ("fatal error:" in r.out or "panic:" in r.out):
+        i = r.out.find("fatal error:")
+        if i < 0:
+            i = r.out.find("panic:")
+        ctx.violation({"sub": HARNESS[prop], "clause": "crash"}, "%s: the proxy process died:\n%s" % (what, r.out[i:i + 3000]),
+                      replay={"sub": HARNESS[prop] + "-crash", "case": None})
+        return True
+    return False
+
+
+def raced(ctx, prop, r, what):
+    """A data race inside fabio under simultaneous requests (run with the race detector)."""
+    if "WARNING: DATA RACE" in r.out:
+        i = r.out.index("WARNING: DATA RACE")
+        rep = r.out[i:i + 3500]
+        if "github.com/fabiolb/fabio/" in rep:
+            ctx.violation({"sub": HARNESS[prop], "clause": "data-race"}, "%s: simultaneous requests race inside fabio:\n%s" % (what, rep),
+                          replay={"sub": HARNESS[prop] + "-race", "case": None})
+            return True
+    return False
+
+
+def check_run(ctx, prop, r, what):
+    if crashed(ctx, prop, r, what):
+        return None
     if not ctx.need_go_ok(r, what):
         return None
     s = r.summary
@@ -66,6 +91,37 @@ def run_harness(ctx, prop, cases, what, timeout=1500, env=None):
         msgs = [x.get("msg", "") for x in r.of_kind("error")][:3]
         ctx.inconclusive("%s: %d request(s) could not be carried out (no verdict on them): %s" % (what, s["errors"], msgs))
     return r
+
+
+def run_harness(ctx, prop, cases, what, timeout=1500, env=None, race=False, test=None):
+    e = {"VERIF_IN": cases}
+    if env:
+        e.update(env)
+    r = ctx.gotest("proxy", FILES[prop], "^%s$" % (test or "TestVerif%s" % prop), env=e, timeout=timeout, race=race)
+    return check_run(ctx, prop, r, what)
+
+
+def run_main_harness(ctx, cases, what, timeout=900):
+    """The C07 cases through package main's own wiring: the shared harness files are compiled into package main."""
+    extra = {}
+    for f in ("common_verif_test.go", "c07_test.go"):
+        src = open(os.path.join(vf.HARNESS, "proxy", f)).read().replace("package proxy\n", "package main\n", 1)
+        dst = os.path.join(ctx.tmp, "main_" + f)
+        with open(dst, "w") as fh:
+            fh.write(src)
+        extra["zz_verif_px_" + f] = dst
+    r = ctx.gotest(".", ["main/c07_main_test.go"], "^TestVerifC07Main$", env={"VERIF_IN": cases}, timeout=timeout, extra_files=extra)
+    return check_run(ctx, "C07", r, what)
+
+
+def filter_cases(src, dst, keep):
+    n = 0
+    with open(src) as fi, open(dst, "w") as fo:
+        for line in fi:
+            if keep(json.loads(line)):
+                fo.write(line)
+                n += 1
+    return n
 
 
 def generate(ctx, prop, mod):
@@ -127,7 +183,7 @@ def selftest(ctx, prop, cases, pred, corrupt, clause):
         ctx.inconclusive("binding self-test: expected exactly the corrupted copy to fail, got %s failures" % r.summary.get("fails"))
 
 
-def run_prop(ctx, prop, mod, rule, pred, corrupt, clause):
+def run_prop(ctx, prop, mod, rule, pred, corrupt, clause, after=None):
     cases = generate(ctx, prop, mod)
     if cases is None:
         return
@@ -144,13 +200,21 @@ def run_prop(ctx, prop, mod, rule, pred, corrupt, clause):
     ctx.cover(traces_validated_against_impl=s["ran"], evaluations=s["ran"], distinct_nontrivial=s["distinct_nontrivial"],
               samples=s.get("samples") or [], rule=rule, exhaustive=ctx.thorough)
     ctx.take_failures(r, HARNESS[prop])
+    if after:
+        after(ctx, cases)
     selftest(ctx, prop, cases, pred, corrupt, clause)
 
 
 def replay_prop(ctx, prop, rp):
     one = os.path.join(ctx.tmp, "%s.replay" % prop.lower())
+    if rp["replay"].get("case") is None:
+        ctx.inconclusive("this finding (%s) has no single case to replay: run the check again" % rp["replay"].get("sub"))
+        return
     vf.write_ndjson(one, [rp["replay"]["case"]])
-    r = run_harness(ctx, prop, one, "%s replay" % prop, timeout=300)
+    if rp["replay"].get("sub") == "c07-main":
+        r = run_main_harness(ctx, one, "C07 replay (package main wiring)", timeout=300)
+    else:
+        r = run_harness(ctx, prop, one, "%s replay" % prop, timeout=300)
     if r is None:
         return
     ctx.cover(evaluations=1)
@@ -182,13 +246,36 @@ def run(ctx):
         "never sliced (in every quick run): route options that need escaping (strip/prepend with a non-ASCII letter or ^, the client spelling the prefix %C3%B6 / %c3%b6 / %5E) x 6 raw paths; queries with empty parameters (leading, trailing, doubled &) x route query; upstream answers preceded by 103 / 102 / 103+103 and requests with Expect: 100-continue (final status, headers, body judged; the informational answers themselves and the Expect header are not)",
         "universe: 6 methods x 10 raw paths (%2F %2f %20 %41 %C3%A9, unescaped sub-delimiters, strip leaving nothing / a relative rest) x 3 queries x strip {none, /strip, one that does not apply, /strip/} x prepend {none, /pre, pre} x host {none, dst, name} x 3 target queries x 4 (header set, upstream answer) pairs, plain and TLS front alternating; no-route: 6 methods x 2 paths x 3 queries x status {404, 503, 999} x page {empty, html} x {host without routes, route that does not match}",
         "bodies {0, 1, 32 KiB+1, 1 MiB} x {Content-Length, chunked in seeded pieces} attached round-robin to requests and upstream answers",
+        "never sliced: the no-route page after a history of registry operations (set, replace, remove, set again; 8 histories) - delivered by a scripted registry back end through main.watchNoRouteHTML in the package main part - and while the registry keeps replacing it (3 sets of pages, every request repeated 120 / 400 times): the answer must be ONE of the pages configured while the request was there, complete; queries with ';', invalid escapes and a trace parameter",
+        "second binding: the never-sliced cases and the no-route cases are replayed a second time through package main's own wiring (main.newHTTPProxy: its Lookup function, transports, every metrics handler set; proxy.ListenAndServeHTTP where a case asks for fabio's own listener); in package proxy the proxy is put together the same way with the metrics handlers set",
         "never sliced: upstream statuses 200, 299, 300, 404, 499, 500, 599, 600, 799, 999 and the no-route status, each with and without an access logger configured; upstreams that die before their answer is complete (closed before any header; Content-Length announced, closed after 10 000 of 32 769 body bytes; chunked without the last chunk after 10 000 / 0 body bytes, closed or reset): the client must either see the exchange fail or get a 5xx from fabio, never a complete-looking answer with part of the body missing (what the upstream had received is not judged in these cases)",
         "strip leaving an empty or relative rest together with prepend follows the documentation's reading: strip yields an absolute path ('forward /path/to/file as /to/file'), 'prepending is done after stripping' (/strip -> /pre/, /stripme/x -> /pre/me/x, strip=/strip/ on /strip/a/b -> /pre/a/b)",
         "scope: a strip prefix that ends inside an escape is not asked; hop-by-hop headers are net/http's; User-Agent suppression and added forwarding headers are not judged here (C08)",
     ]
     run_prop(ctx, "C07", ctx.pick(8, 1),
              "one case per finished pipeline run TLC enumerated (quick: the slice selected by the seed; thorough: the full product); non-trivial = forwarded case with strip/prepend applying, escapes in the path, a host option or a target query",
-             _c07_pred, _c07_corrupt, "path")
+             _c07_pred, _c07_corrupt, "path", after=_c07_main)
+
+
+MAIN_SUBS = {"amp", "pagehist", "flip", "rest", "status", "interim", "enc"}
+
+
+def _c07_main(ctx, cases):
+    """Second binding: the never-sliced cases (and the no-route cases) through package main's own wiring -
+    main.newHTTPProxy with its Lookup function, transports and metrics handlers, main.watchNoRouteHTML fed by a
+    scripted registry back end, proxy.ListenAndServeHTTP."""
+    sub = os.path.join(ctx.tmp, "c07.main.cases")
+    n = filter_cases(cases, sub, lambda c: c["c"]["sub"] in MAIN_SUBS or (c["c"]["sub"] == "noroute" and not c["c"]["accesslog"]))
+    if n == 0:
+        ctx.inconclusive("no cases for the package main wiring")
+        return
+    r = run_main_harness(ctx, sub, "C07 replay through package main")
+    if r is None:
+        return
+    s = r.summary
+    ctx.log("package main wiring (main.newHTTPProxy, main.watchNoRouteHTML): %d cases replayed, %d failed, %.0fs" % (s["cases"], s["fails"], r.wall))
+    ctx.cover("main-wiring", traces_validated_against_impl=s["ran"], evaluations=s["ran"])
+    ctx.take_failures(r, "c07-main")
 
 
 def replay(ctx, rp):
